@@ -5,6 +5,7 @@ Executes the *real* AST of a tenpy function over symbolic values; forks at symbo
 with symbolic trip count at supplied invariants, and collects named proof obligations.
 """
 import ast
+import os
 from fractions import Fraction
 
 import z3
@@ -137,6 +138,8 @@ class Interp:
         self.spec_mode = 0
         self.solver = z3.Solver()
         self.solver.set('timeout', self.FEAS_TIMEOUT_MS)
+        from .values import str_axioms
+        self.solver.add(*str_axioms())
         self.hooks = hooks or {}    # qualified callee name -> python handler(interp, args, kwargs)
         self.ghost = ghost if ghost is not None else {}
         self.trusted = set()        # assumed primitive contracts actually used
@@ -199,6 +202,9 @@ class Interp:
         if z3.is_false(cond):
             return False
         if self.spec_mode:
+            if os.environ.get('PYVC_DEBUG'):
+                import traceback
+                traceback.print_stack(limit=14)
             raise Unsupported('branch on symbolic condition inside a specification clause')
         if self.dpos < len(self.decisions):
             d = self.decisions[self.dpos]
@@ -531,8 +537,8 @@ class Interp:
         if isinstance(a, str) or isinstance(b, str):
             if isinstance(a, str) and isinstance(b, str):
                 return a == b
-            if isinstance(a, Opq) or isinstance(b, Opq):
-                raise Unsupported('comparison of opaque value with a string')
+            if isinstance(a, Opq) or isinstance(b, Opq) or (is_z3(a) and a.sort() == U) or (is_z3(b) and b.sort() == U):
+                return to_z3(a, U) == to_z3(b, U)      # strings are injectively embedded into U (values.str_const)
             return False
         a, b = self._num(a), self._num(b)
         if isinstance(a, (int, Fraction)) and isinstance(b, (int, Fraction)):
@@ -669,9 +675,9 @@ class Interp:
             return out
         if kind == 'U' and isinstance(v, dict) and not v:
             return [EMPTY_DICT_U]      # a fresh empty dict stored into an opaque-valued container
-        if kind == 'U' and not (isinstance(v, Opq) or v is None or (is_z3(v) and v.sort() == U)):
+        if kind == 'U' and not (isinstance(v, (Opq, str)) or v is None or (is_z3(v) and v.sort() == U)):
             raise Unsupported(f'cannot store {type(v).__name__} in an opaque-valued container')
-        return [to_z3(self._num(v) if kind != 'bool' else v, kind_sort(kind))]
+        return [to_z3(v if isinstance(v, str) else (self._num(v) if kind != 'bool' else v), kind_sort(kind))]
 
     def unflat_elem(self, terms, kind):
         if isinstance(kind, tuple):
@@ -820,7 +826,7 @@ class Interp:
                 type(a)([self.ite(c, x, y) for x, y in zip(a, b)])
         if a is b:
             return a
-        if isinstance(a, Opq) or isinstance(b, Opq):
+        if isinstance(a, Opq) or isinstance(b, Opq) or (isinstance(a, str) and isinstance(b, str)):
             return Opq(z3.If(c, to_z3(a, U), to_z3(b, U)))
         a, b = self._num(a), self._num(b)
         if (is_z3(a) or isinstance(a, (int, Fraction, bool))) and (is_z3(b) or isinstance(b, (int, Fraction, bool))):
@@ -839,6 +845,25 @@ class Interp:
         off = 0
         n = self.seg_len(s)
         i = self.norm_index(idx, n)
+        if self.spec_mode:
+            # total (no forking inside a specification): nested if-then-else over the segments, last segment as default
+            res = None
+            offs = []
+            for items, c in s.segs:
+                offs.append(off)
+                off = self.binop(ast.Add(), off, self.binop(ast.Mult(), len(items), c))
+            for (items, c), o in reversed(list(zip(s.segs, offs))):
+                rel = self.binop(ast.Sub(), i, o)
+                r = self.binop(ast.Mod(), rel, len(items)) if len(items) > 1 else 0
+                el = self.getitem(items, r)
+                if res is None:
+                    res = el
+                else:
+                    hi = self.binop(ast.Add(), o, self.binop(ast.Mult(), len(items), c))
+                    res = self.ite(self.z3bool(self.compare(ast.Lt(), i, hi)), el, res)
+            if res is None:
+                raise Unsupported('index into an empty segmented list inside a specification')
+            return res
         for items, c in s.segs:
             ln = self.binop(ast.Mult(), len(items), c)
             hi = self.binop(ast.Add(), off, ln)
